@@ -101,3 +101,10 @@ add('C15', 'model-based stateful testing of operation histories (Hypothesis-gene
     '9-operation alphabet are enumerated too.',
     'Trusted: the model in vpgpy/certmachine.py, refpgp.grammar/sig. Histories start from a key with a text user id (PGPy documents that as required).',
     'DESIGN.md 4/C15')
+add('C07', 'model-based stateful testing over key-management histories with byte-level leak search: after every step fresh, unlocked-scope, re-loaded and earlier (still referenced) public twins are inspected',
+    'The C15 history generator (two keys, 6 primary algorithms, 7 kinds of subkey, identities, photos, third-party certifications, revocations, protect/unlock, copy, export/import, "keep a '
+    'public twin") is run with C07 invariants: packet tags within {6,14,13,17,2}, PUBLIC KEY BLOCK label, no big-endian or native encoding of any pooled secret integer in the binary or '
+    'de-armored export, equality of fingerprint/components/signature multiset with the private key for fresh twins (locked and inside an unlock scope), and refusal of sign, certify, revoke, '
+    'revoker, decrypt, add_subkey and bind on every public-only object, including twins derived before later additions.',
+    'Trusted: secret integers come from the committed key pool (generated with cryptography), refpgp.wire/armor for splitting. Early twins are only checked for secrecy and refusal.',
+    'DESIGN.md 4/C07')
